@@ -1,12 +1,15 @@
 #!/bin/sh
-# usage: try_mutation.sh <patch.diff> <check ids...>   -- applies the patch to /repo, runs the quick checks, reverts
-patch="$1"; shift
-cd /repo || exit 2
-git apply --check "$patch" || { echo "patch does not apply"; exit 2; }
-git apply "$patch"
+# usage: try_mutation.sh <patch.diff> <check ids...>
+# Runs the quick checks against a SCRATCH WORKTREE of /repo with the patch applied (CIW_REPO points the observer at it),
+# so that /repo itself is never modified and several people can try mutations at the same time.  The worktree is removed afterwards.
+# (The final protocol - git -C /repo apply / run / git -C /repo checkout -- . - gives the same result; see harness/mutation_matrix.py --in-place.)
+patch=$(readlink -f "$1"); shift
+wt=$(mktemp -d /tmp/tm_XXXXXX); rmdir "$wt"
+git -C /repo worktree add --detach "$wt" HEAD -q || exit 2
+if ! git -C "$wt" apply "$patch"; then echo "patch does not apply"; git -C /repo worktree remove --force "$wt"; exit 2; fi
 cd /verif
 for id in "$@"; do
-  out=$(./check "$id" --tier quick 2>&1); rc=$?
+  out=$(CIW_REPO="$wt" PYTHONPATH="$wt" VERIF_EVIDENCE_DIR="$wt/_evidence" ./check "$id" --tier quick 2>&1); rc=$?
   echo "== $id rc=$rc: $(echo "$out" | grep -c VIOLATION) violation line(s); $(echo "$out" | tail -1)"
 done
-cd /repo && git checkout -- . && git status --short | head -3
+git -C /repo worktree remove --force "$wt"; git -C /repo worktree prune
